@@ -184,6 +184,7 @@ VALUES = {
     'none': lambda: None, 'zero': lambda: 0, 'empty-str': lambda: '', 'empty-list': lambda: [], 'false': lambda: False,
     'nested': lambda: {'a': [1, (2, 3), {'b': {4}}], 'c': None}, 'obj': lambda: Point(1, [2]),
     'b0': lambda: b'', 'b1': lambda: b'z', 'b64k': lambda: b'k' * 65536, 'b64k1': lambda: b'k' * 65537,
+    'many': lambda: [{'i': i} for i in range(120000)],       # takes the receiving side a while to recreate
     'b208k1': lambda: b'q' * 212993, 'b1m': lambda: b'm' * (1 << 20), 'b4m': lambda: b'M' * (4 << 20),
 }
 EXCS = {
